@@ -72,11 +72,15 @@ def features(direction, w, name):
             f.append('css3-colour-function')
         if w == '0' and name in ('pitch', 'pause-after', 'pause-before'):
             f.append('unitless-zero-time-frequency')
+        if name == 'font-size' and re.fullmatch(r'-[0-9.]+%', w):
+            f.append('negative-percentage')
         if re.fullmatch(r'[-]?[0-9]*\.?[0-9]+(em|ex|px|in|cm|mm|pt|pc)?|0+', w, re.I) and False:
             pass
     else:
         if re.search(r'\+[0-9.]', w):
             f.append('plus-sign')
+        if name == 'font-size' and re.fullmatch(r'[+-]?[0-9.]+%', w):
+            f.append('font-size-percentage-sign')
         if re.fullmatch(R.ZERO, w) and w != '0':
             f.append('zero-spelling')
         if w.lower().startswith('url('):
@@ -103,6 +107,8 @@ def exclusion(feature):
         return '[uU][rR][lL]\\(.*'
     if feature == 'css3-colour-function':
         return '(?i:rgba|hsl|hsla)\\(.*'
+    if feature == 'negative-percentage':
+        return '-[0-9.]+%'
     if feature == 'unitless-zero-time-frequency':
         return '0'
     if feature == 'css3-colour-keyword':
@@ -241,7 +247,8 @@ SKELETONS = [
     ('font-family', ['a', ',', 'b']), ('margin', ['1', 'px', ' ', '2', 'em']),
     ('color', ['rgb(', '1', ',', '2', ',', '3', ')']), ('background-image', ['url(', 'x', ')']),
     ('z-index', ['-', '1']), ('font-weight', ['bold']), ('border', ['1', 'px', ' ', 'solid', ' ', 'red']),
-    ('left', ['+', '5', 'px']), ('top', ['0']), ('display', ['inline-block']), ('x-unknown', ['a']),
+    ('left', ['+', '5', 'px']), ('top', ['0']), ('font-size', ['0.5', 'em']), ('font-size', ['.5', 'em']),
+    ('width', ['.25', 'px']), ('line-height', ['0.5']), ('display', ['inline-block']), ('x-unknown', ['a']),
 ]
 GAPS = ['', ' ', '/**/', ' /**/ ', '\n']
 EDGE = ['', ' ', '/**/']
@@ -293,6 +300,11 @@ def run_spelling(sindex):
         info = {'in': inputs, 'tags': []}
         cssutils.log.raiseExceptions = False
         css = cssutils.css
+        # serializer preferences must not influence a verdict
+        from sx.core import fresh_bool
+        olz = fresh_bool('omitLeadingZero')
+        inputs['omitLeadingZero'] = olz
+        cssutils.ser.prefs.useDefaults()
         try:
             text = pname + ':' + value
             sheet_v = cssutils.parseString('a{' + text + '}', validate=True)
@@ -310,7 +322,14 @@ def run_spelling(sindex):
             info['tags'].append('dropped')
             return True, info
         p, q = pv[0], pr[0]
-        info['tags'].append('valid' if q.valid else 'invalid')
+        qvalid = q.valid
+        info['tags'].append('valid' if qvalid else 'invalid')
+        cssutils.ser.prefs.omitLeadingZero = olz
+        pvalid_pref = p.valid
+        cssutils.ser.prefs.useDefaults()
+        if pvalid_pref != qvalid:
+            info['note'] = 'valid changes with the serializer preference omitLeadingZero: %r vs %r' % (pvalid_pref, qvalid)
+            return False, info
         conds = []
         # verdict identical for every spelling
         if p.valid != q.valid:
@@ -470,6 +489,13 @@ def replay(case):
         n = cssutils.parseString('a{%s:%s}' % (pname, value), validate=False)
         v = cssutils.parseString('a{%s:%s}' % (pname, value), validate=True)
         problems = []
+        if a and b and 'omitLeadingZero' in inp:
+            cssutils.ser.prefs.omitLeadingZero = inp['omitLeadingZero']
+            flipped = a[0].valid
+            cssutils.ser.prefs.useDefaults()
+            if flipped != b[0].valid:
+                problems.append('preference: valid is %r with omitLeadingZero=%s, %r by default'
+                                % (flipped, inp['omitLeadingZero'], b[0].valid))
         if len(a) != len(b):
             problems.append('declaration count %d vs %d' % (len(a), len(b)))
         elif a:
